@@ -118,6 +118,25 @@ func C15(r *ev.Run) {
 		}
 		return
 	}
+	// one proposal with more transactions than a 16-bit counter can hold
+	{
+		m := mon.NewPropose()
+		cfg := vnet.Config{Seed: r.Seed, Profile: "huge-pool", N: 1, BaseHeight: 5, Heights: 1, AMEV: -1, TPB: time.Second, TxPerBlock: 70000,
+			Epoch: time.Date(2031, 1, 1, 0, 0, 0, 0, time.UTC).UnixNano(), MaxSteps: 100}
+		cfg.GenesisTs = uint64(cfg.Epoch) - uint64(cfg.TPB)
+		cfg.K = vnet.Knobs{Sync: true, SlowNode: -1, ResetDelayNode: -1}
+		cfg.Roles = make([]vnet.Role, 1)
+		c := vnet.NewCluster(cfg, m)
+		for i := 0; i < 66000; i++ {
+			t := c.NewTx(false)
+			c.Nodes[0].Pool[t.Hash()] = t
+		}
+		b := &Built{C: c, Hooks: &vnet.Hooks{}, Spec: Spec{Profile: "huge-pool", Idx: -1, Seed: r.Seed}}
+		b.Go()
+		Report(r, b, m.Viols)
+		Account(r, b, m.Cnt)
+		r.Count("proposals-with-more-than-65535-txs", m.Cnt["proposals-checked"])
+	}
 	Parallel(len(specs), func(i int) { each(specs[i]) })
 	r.Floor("proposals-checked", 5000)
 	r.Floor("proposals-clock-ahead", 2000)
